@@ -205,7 +205,6 @@ func init() {
 		return api.ResetFormFieldsFile(e.In[0], e.Out, nil, conf())
 	})
 
-
 	// ---- wider API coverage (second catalogue wave): every remaining public *File writer of pkg/api
 	wmText := func(update bool) (*model.Watermark, error) {
 		return api.TextWatermark("Map", "scale:.4, rot:10", true, update, types.POINTS)
@@ -322,13 +321,19 @@ func init() {
 	}
 	stdin("cli-stdin-optimize", zine, func(e *Env) error { _, err := cli.Optimize(cli.OptimizeCommand("-", e.Out, conf())); return err })
 	stdin("cli-stdin-rotate", zine, func(e *Env) error { _, err := cli.Rotate(cli.RotateCommand("-", e.Out, 90, nil, conf())); return err })
-	stdin("cli-stdin-trim", zine, func(e *Env) error { _, err := cli.Trim(cli.TrimCommand("-", e.Out, []string{"1-2"}, conf())); return err })
+	stdin("cli-stdin-trim", zine, func(e *Env) error {
+		_, err := cli.Trim(cli.TrimCommand("-", e.Out, []string{"1-2"}, conf()))
+		return err
+	})
 	stdin("cli-stdin-removepages", zine, func(e *Env) error {
 		_, err := cli.RemovePages(cli.RemovePagesCommand("-", e.Out, []string{"1"}, conf()))
 		return err
 	})
 
-	stdin("cli-stdin-collect", zine, func(e *Env) error { _, err := cli.Collect(cli.CollectCommand("-", e.Out, []string{"2", "1"}, conf())); return err })
+	stdin("cli-stdin-collect", zine, func(e *Env) error {
+		_, err := cli.Collect(cli.CollectCommand("-", e.Out, []string{"2", "1"}, conf()))
+		return err
+	})
 	stdin("cli-stdin-watermark", zine, func(e *Env) error {
 		wm, err := api.TextWatermark("CLI", "scale:.4", true, false, types.POINTS)
 		if err != nil {
